@@ -31,7 +31,7 @@ def exhaustive(tier):
 
 def required(tier):
     return ["sustain:int_equal", "sustain:int_open", "sustain:tuple_with_zero", "sustain:tuple_all_different", "orange_nonzero",
-            "sustain_crosses>=2_tempo_changes", "max_end_not_on_last_note", "empty_track", "flag_length_nonzero", "track_with_S_E_only"]
+            "sustain_crosses>=2_tempo_changes", "max_end_not_on_last_note", "empty_track", "flag_length_nonzero", "track_with_S_E_only", "concurrent_stage"]
 
 
 def shards(tier, seed):
@@ -128,6 +128,7 @@ def run_shard(shard, rec, tier, seed):
         rec.sample({"a": a, "b": b, "gap": gap, "flag_len": flag_len, "resolution": res, "tempo_events": len(tempos),
                     "groups": len(groups), "body_head": case["sections"][3][1][:8]})
     else:
+        keep = mcheck.Keep()
         for i in range(shard["count"]):
             rng = harness.rng_for(seed, ID, shard["name"], i)
             case = gen.gen_chart(rng, "hostile" if i % 2 else "realistic", n_tracks=rng.choice([1, 2, 4]),
@@ -136,10 +137,13 @@ def run_shard(shard, rec, tier, seed):
             keys = [body for name, body in case["sections"] if name not in ("Song", "SyncTrack", "Events")
                     and any(" = N " in ln and not ln.rstrip().endswith(" 0") for ln in body)]
             judge(rec, case, keys)
+            keep.add(case)
             if i < 1:
                 rec.sample({"text_head": case["text"][:300]})
             if rec.full:
                 break
+        if not rec.full:
+            mcheck.threaded_stage(rec, ("C03",), keep.cases)
     harness.finish(rec)
 
 
